@@ -35,6 +35,11 @@ def run(res, only=None):
     core.replay_bin(res, "tok", e, allc, env_extra={"HX_PROP": "C07"}, tag="layout", expect_ops=["mat:read:display", "mat:read:debug"])
     # entry-wise matrix and component-wise quaternion arithmetic on random bit patterns: the correctly rounded result in every build
     core.record_and_validate(res, "mat", allc, draws=1 if res.tier == "quick" else 20, chunks=2 if res.tier == "quick" else 6, expect_kinds=("f1", "f2"))
+    # numeric conversions of the SIMD-backed vectors (as_* casts, From, TryFrom of Vec3A / Vec4 and every other type): the conversion machine
+    # of C14 replayed in every build -- a vectorised cast (cvttps2dq saturates to MIN, Rust's `as` to MAX / 0 for NaN) differs from the scalar build
+    f = os.path.join(wd, "conv.out")
+    res.add_tlc(core.run_tlc("MC_C14", res.tier, f, workers=8, extra_constants={"Seed": res.seed % 97}))
+    core.replay_bin(res, "conv", f, ss + [c for c in ff if c == "fma"], tag="conv", env_extra={"HX_PROP": "C07"}, expect_ops=["fi:f32->i32", "if:i32->f32", "ff:f32->f64"])
     # the slerp of every backend (the SSE2 one has its own range reduction and polynomial sine) satisfies the same Chebyshev relations of
     # Trace_Rel, also for integer factors far outside [0, 1] where the angle is reduced modulo a turn: equal to one specification, hence
     # to each other, within the relation's tolerance
@@ -76,4 +81,4 @@ def run(res, only=None):
 def replay(res, path, only=None):
     import json
     fam = json.load(open(path)).get("case", {}).get("fam")
-    return core.replay_dispatch(res, path, {"lane": "lane", "lin": "lin", "chain20": "chain", "hid": "hid"}.get(fam, "lane"), env_keys=())
+    return core.replay_dispatch(res, path, {"lane": "lane", "lin": "lin", "chain20": "chain", "hid": "hid", "conv": "conv"}.get(fam, "lane"), env_keys=())
